@@ -312,6 +312,8 @@ def run(prog, ctx):
         res.rule("C18.S", r7.rules.get("C07.S", {}).get("instances", 0), 3, "frequent-items sizing formulas (imported from C07.S)")
     except Exception as ex:
         res.extra.setdefault("undecided_items", []).append("C18.S could not run C07: %r" % (ex,))
+    # HLL: 4 bytes per aux entry, and an aux entry exists exactly for a register at or above cur_min + 15 (C02.A4)
+    C.import_rules(res, prog, ctx, "C18.A", "C02", ("C02.A4",), "aux entries only for exception registers", 2)
     res.explanation = ("who-may-grow over all %d functions of the crate for the six fixed-size buffers; capacity-rule guards and formulas for HLL "
                        "list/set/aux promotion, t-digest buffering and capacity; HLL image-size formulas evaluated over lg_k 4..=21" % len(allf))
     res.not_decided = "CPC's empirical 99.9% size bound"
